@@ -34,7 +34,7 @@ ASSUMPTIONS = ["user functions are pure; built-ins are not part of the call log"
 BUDGET_S = {"quick": 150, "thorough": 1500}
 
 PROFILE = dict(max_ops=8, name_pool="adversarial", alias_arrays=False, dead_code=False,
-               extra_kinds=("call", "call", "real", "real", "arrwrite"))
+               extra_kinds=("call", "call", "real", "real", "arrwrite", "guarded_loop_call", "repeated_arg"))
 
 PIPELINES = {
     "self_dep": ["eliminate_self_dependencies"],
